@@ -277,6 +277,12 @@ pub fn err_item(e: lexpr::parse::Error) -> String {
     let code = err_code(&e);
     let cat = e.classify();
     let src = std::error::Error::source(&e).map(|s| s.to_string());
+    // the three predicates are the category, and only syntax / EOF errors carry a location
+    let preds_ok = e.is_io() == (cat == Category::Io) && e.is_syntax() == (cat == Category::Syntax) && e.is_eof() == (cat == Category::Eof)
+        && (e.location().is_some() || cat == Category::Io);
+    if !preds_ok {
+        *KIND_FAIL.lock().unwrap() = Some(format!("is_io/is_syntax/is_eof/location disagree with classify() = {:?} ({})", cat, code));
+    }
     let conv = std::panic::catch_unwind(std::panic::AssertUnwindSafe(move || std::io::Error::from(e)));
     let bad = match conv {
         Err(_) => Some("the conversion to io::Error panicked".to_string()),
